@@ -38,7 +38,8 @@ Definition all_items : list item :=
 
 (* the board: chip family, whether a TCXO / the DC-DC regulator has to be set up; whether the current API operation is listen()
    (a carrier-sense reception that needs no packet set-up) *)
-Record mctx := { x_fam : chipkind; x_tcxo : bool; x_dcdc : bool; x_listen : bool }.
+Record mctx := { x_fam : chipkind; x_tcxo : bool; x_dcdc : bool; x_listen : bool;
+                 x_lora : bool   (* SX127x: LoRa-mode selection counts among the things a start depends on (the check: always) *) }.
 
 Record mon := {
   cm : cmode;                  (* the mode the chip is in *)
@@ -68,11 +69,11 @@ Definition need (x : mctx) (k : startkind) : list item :=
      end ++ (if x_dcdc x then [IRegulator] else [])
    | K127 =>
      match k with
-     | StTx => [ILoraMode; ISync; ITxBase; IMod; IMod2; IPre; IPayLen; IInvIq; IIrqMask; IDioMap; IFreq; IFreqMid; IFreqLsb; IPaConfig]
-     | StRx => if x_listen x then [ILoraMode; IMod; IFreq; IFreqMid; IFreqLsb]
-               else [ILoraMode; ISync; IRxBase; IMod; IMod2; IPre; IInvIq; IIrqMask; IDioMap; IFreq; IFreqMid; IFreqLsb]
-     | StCad => [ILoraMode; ISync; IMod; IMod2; IIrqMask; IDioMap; IFreq; IFreqMid; IFreqLsb]
-     end
+     | StTx => [ISync; ITxBase; IMod; IMod2; IPre; IPayLen; IInvIq; IIrqMask; IDioMap; IFreq; IFreqMid; IFreqLsb; IPaConfig]
+     | StRx => if x_listen x then [IMod; IFreq; IFreqMid; IFreqLsb]
+               else [ISync; IRxBase; IMod; IMod2; IPre; IInvIq; IIrqMask; IDioMap; IFreq; IFreqMid; IFreqLsb]
+     | StCad => [ISync; IMod; IMod2; IIrqMask; IDioMap; IFreq; IFreqMid; IFreqLsb]
+     end ++ (if x_lora x then [ILoraMode] else [])
    end) ++ (if x_tcxo x then [ITcxo] else []).
 Definition start (x : mctx) (m : mon) (k : startkind) : mon :=
   if forallb (valid m) (need x k) then m else flag_start m.
